@@ -286,6 +286,26 @@ def _filter_stores(ctx: Ctx, f: Func, var: str | None) -> list:
             it = X.at(f, n.targets[0].slice)
             base = n.targets[0].value
             out.append(_FStore(n, ast.unparse(base), it[1][0] if it[0] == "tuple" else it, base.id if isinstance(base, ast.Name) else None))
+    # out-of-place form: `M = np.where(rows[:, newaxis], weights, <M so far>)`
+    for n in nodes_in(f, ast.Assign):
+        if len(n.targets) == 1 and isinstance(n.targets[0], ast.Name) and isinstance(n.value, ast.Call) and len(n.value.args) == 3 \
+                and isinstance(n.value.args[1], ast.Name) and n.value.args[1].id == var:
+            vt = X.at(f, n.value)
+            if vt[0] == "call" and vt[1] == ("global", "numpy.where"):
+                cond = vt[2][0]
+                # the row mask, broadcast over the realizations: mask[:, newaxis] / expand_dims(mask, 1) / mask.reshape(-1, 1)
+                while True:
+                    if cond[0] == "sub" and cond[2][0] == "tuple" and any(e_ in (("global", "numpy.newaxis"), ("const", None)) for e_ in cond[2][1]):
+                        cond = cond[1]
+                    elif cond[0] == "call" and cond[1] == ("global", "numpy.expand_dims") and cond[2]:
+                        cond = cond[2][0]
+                    elif cond[0] == "call" and cond[1][0] == "attr" and cond[1][2] == "reshape":
+                        cond = cond[1][1]
+                    else:
+                        break
+                rec = _FStore(n, n.targets[0].id, cond, n.targets[0].id)
+                rec.where_base = n.value.args[2]
+                out.append(rec)
     for cl in calls_in(f):
         argnodes = list(cl.args) + [k.value for k in cl.keywords]
         if not any(isinstance(a, ast.Name) and a.id == var for a in argnodes):
@@ -431,6 +451,21 @@ def _filter_loop_clauses(ctx: Ctx, res: RuleResult, f, c, lp, stores) -> None:
                 tg = n.targets if isinstance(n, ast.Assign) else [n.target]
                 if any(isinstance(t_, ast.Name) and t_.id == rec.base for t_ in tg):
                     seen_b.add((id(n), rec.base))
+                    wb = getattr(rec, "where_base", None)
+                    if wb is not None and n is rec.node:
+                        # out-of-place store: the rows that are not written come from the matrix as it was (or, while it
+                        # is still None, from the default) - the fall-back operand has to mention the matrix itself
+                        e_ = wb
+                        if isinstance(e_, ast.Name) and e_.id != rec.base:
+                            defs_ = [a_ for a_ in ast.walk(f.node) if isinstance(a_, ast.Assign) and len(a_.targets) == 1 and isinstance(a_.targets[0], ast.Name)
+                                     and a_.targets[0].id == e_.id]
+                            if len(defs_) == 1 and any(a_ is x for x in ast.walk(lp) for a_ in defs_):
+                                e_ = defs_[0].value
+                        ok = any(isinstance(x, ast.Name) and x.id == rec.base and isinstance(x.ctx, ast.Load) for x in ast.walk(e_))
+                        res.add(f, n, f"`{rec.base}` is created inside the filter loop only while it is still None (rows written for earlier filters are kept)", ok,
+                                "" if ok else f"`{norm_stmt(n)[:70]}` rebuilds `{rec.base}` from a value that does not contain the rows written for earlier filters: they are lost",
+                                construct=f"{f.name}: rows of {rec.base}: accumulation")
+                        continue
                     ok = guarded_by_none(n, rec.base) or hands_back(n, rec)
                     res.add(f, n, f"`{rec.base}` is created inside the filter loop only while it is still None (rows written for earlier filters are kept)", ok,
                             "" if ok else f"`{norm_stmt(n)[:70]}` re-creates `{rec.base}` for every filter: the rows written for lower-indexed filters are lost",
